@@ -288,6 +288,36 @@ theorem judge_accepts_decode_build (sep : Bytes) (hsep : SepOk sep) (sl : Bytes)
   obtain ⟨h, hd, hrt⟩ := decode_build sep hsep sl hsl hs hwf loc src now
   exact ⟨h, hd, judge_accepts_roundtrip sl hs src h probes hrt hcov hmeta⟩
 
+/-- delivery to all configured sinks: for every constructor configuration (only `on_data`, only
+    `async_on_data`, both, neither — any list of sinks) every configured callback receives the decoded
+    message exactly once and all of them receive the same content; nothing is delivered when the
+    datagram was dropped -/
+theorem deliver_all (sinks : List Sink) (hn : sinks.Nodup) (x : Bytes × Hdrs) :
+    (∀ s ∈ sinks, ((deliver sinks (some x)).filter (·.1 = s)) = [(s, x)])
+    ∧ (∀ e ∈ deliver sinks (some x), e.2 = x) ∧ deliver sinks none = [] := by
+  refine ⟨?_, ?_, rfl⟩
+  · intro s hs
+    unfold deliver
+    induction sinks with
+    | nil => cases hs
+    | cons a r ih =>
+      simp only [List.nodup_cons] at hn
+      simp only [List.map_cons, List.filter_cons]
+      rcases List.mem_cons.mp hs with rfl | hr
+      · have : (r.map fun t => (t, x)).filter (fun e => decide (e.1 = s)) = [] := by
+          rw [List.filter_eq_nil_iff]
+          intro e he
+          obtain ⟨t, ht, rfl⟩ := List.mem_map.mp he
+          simp only [decide_eq_true_eq]
+          intro e2; subst e2; exact hn.1 ht
+        simp [this]
+      · have hne : a ≠ s := fun e => hn.1 (e ▸ hr)
+        simp [hne, ih hn.2 hr]
+  · intro e he
+    unfold deliver at he
+    obtain ⟨t, _, rfl⟩ := List.mem_map.mp he
+    rfl
+
 /-! ### decoding is independent of history -/
 
 /-- **`lru_cache` is transparent**: for every capacity, every pure function (failing or not) and
